@@ -216,6 +216,20 @@ def check(src, rep):
                 break
         if und:
             break
+    # a frame whose APDU header carries no date-time (null header): the clock element of the list is the meter clock
+    if not und and not bad5:
+        items_ = [AObj("Container", {"obis": "0.1.1.0.0.255", "value": AObj("Container", {"datetime": DT})}), AObj("Container", {"obis": "1.1.1.7.0.255", "value": PWR})]
+        arg_ = AObj("Container", {"information": AObj("Container", {"notification_body": AObj("Container", {"list_items": items_}), "DateTime": AObj("Container", {})})})
+        r_ = AbsEval(M, hooks={"Obis.from_string": obis_hook}).apply(fr_fn, [arg_])
+        n_cases += 1
+        if r_[0] in ("undecided", "branch"):
+            und = f"frame list with a null APDU date-time: {r_[1]!r}"
+        elif r_[0] == "raise":
+            bad5 += 1
+            V("R5", "null-header", f"the frame normaliser raises {r_[1]} for a frame whose APDU header carries no date-time", None, fnname="normalize_parsed_frame")
+        elif isinstance(r_[1], dict) and r_[1].get(MDT) != DT:
+            bad5 += 1
+            V("R5", "null-header", "for a frame whose APDU header carries no date-time the meter clock is not the list's clock element", f"meter_datetime = {r_[1].get(MDT)!r}", fnname="normalize_parsed_frame")
     n_paths = n_cases
     rf = rlog.finding()
     if rf:
